@@ -515,7 +515,32 @@ impl<F: Family> DynFamily for F {
     }
 }
 
+/// (open descriptors, soft limit) of this process.
+pub fn fd_usage() -> (usize, usize) {
+    static LIMIT: std::sync::OnceLock<usize> = std::sync::OnceLock::new();
+    let limit = *LIMIT.get_or_init(|| {
+        std::fs::read_to_string("/proc/self/limits")
+            .ok()
+            .and_then(|t| t.lines().find(|l| l.starts_with("Max open files")).and_then(|l| l.split_whitespace().nth(3).and_then(|v| v.parse::<usize>().ok())))
+            .unwrap_or(1024)
+    });
+    (std::fs::read_dir("/proc/self/fd").map(|d| d.count()).unwrap_or(0), limit)
+}
+
 fn run_guarded<F: Family>(fam: &F, case: &F::Case, cx: &CaseCtx) -> CaseResult {
+    let r = run_guarded_inner(fam, case, cx);
+    if let Err(f) = &r {
+        // A failure observed while the process is about to run out of descriptors says nothing about
+        // the code under test (accept, dial and runtime creation fail with EMFILE): inconclusive.
+        let (used, limit) = fd_usage();
+        if f.oracle != "INFRA" && used * 4 > limit * 3 {
+            return Err(Fail::new("INFRA", "INFRA", format!("{used} of {limit} descriptors in use when a case failed ({}: {}); not attributable", f.oracle, f.detail)));
+        }
+    }
+    r
+}
+
+fn run_guarded_inner<F: Family>(fam: &F, case: &F::Case, cx: &CaseCtx) -> CaseResult {
     let _ = take_panics();
     let r = catch_unwind(AssertUnwindSafe(|| fam.run(case, cx)));
     let panics = take_panics();
